@@ -21,6 +21,7 @@ type pgServer struct {
 	committed map[string][]byte
 	log       []string
 	plan      []bool // fault decisions, consumed one per primitive call
+	soft      bool   // failing statements fail on the client side: the transaction is not poisoned
 	used      int
 	ntx       int
 	open      map[int]bool
@@ -100,7 +101,7 @@ func (t *pgTx) Exec(ctx context.Context, sql string, args ...any) (pgconn.Comman
 		return pgconn.CommandTag{}, errors.New("transaction is closed or aborted")
 	}
 	if err := t.s.tick("exec"); err != nil {
-		t.aborted = true
+		t.aborted = !t.s.soft
 		return pgconn.CommandTag{}, err
 	}
 	if len(args) >= 2 {
@@ -115,7 +116,7 @@ func (t *pgTx) Query(ctx context.Context, sql string, args ...any) (pgx.Rows, er
 		return nil, errors.New("transaction is closed or aborted")
 	}
 	if err := t.s.tick("query"); err != nil {
-		t.aborted = true
+		t.aborted = !t.s.soft
 		return nil, err
 	}
 	k := string(args[0].([]byte))
@@ -164,7 +165,7 @@ type pgRows struct {
 func (r *pgRows) Next() bool { r.i++; return r.i <= len(r.vals) }
 func (r *pgRows) Scan(dest ...any) error {
 	if err := r.t.s.tick("scan"); err != nil {
-		r.t.aborted = true
+		r.t.aborted = !r.t.s.soft
 		return err
 	}
 	if len(dest) == 2 {
